@@ -80,7 +80,11 @@ Record stree := mkTree { t_id : nat; t_roster : roster; t_root : tmnode }.
 Inductive body := BPing | BOther | BGarbage.
 
 Inductive msg :=
-| MProto (from to : option token) (b : body)
+| MProto (from to : option token) (b : body) (decl : nat)
+    (* [b]: what MsgSlice decodes to.  [decl]: the MsgType field the sender wrote into the
+       ProtocolMsg (0 = the type of the encoded message; other values = another registered
+       or an unknown type).  Overlay.Process recomputes the type from the decoded message
+       (network.MessageType(inner)): the declared field is never read. *)
 | MReqTree (tree ver : nat)
 | MRespTree (tm : option tmarshal) (ro : option roster)
 | MTreeMarshal (tm : tmarshal)            (* deprecated SendTree *)
@@ -555,7 +559,7 @@ Definition process (fx : fixes) (p : peer) (cfgtype : bool) (nil_first : bool) (
     | MTreeMarshal tm => handle_send_tree_marshal fx p tm
     | MReqRoster rid => handle_request_roster fx p rid nil_first
     | MRoster ro => handle_send_roster fx ro
-    | MProto from to b =>
+    | MProto from to b _ =>                                    (* the declared type is not read *)
         match b with
         | BGarbage => ret tt                                  (* Unwrap: unmarshaling error *)
         | _ => transmit fx p from to b
